@@ -1,4 +1,5 @@
 import GbVerif.Proofs.BusDma
+import GbVerif.Proofs.SysBatch
 /-!
 C16 — OAM DMA copies exactly 160 bytes, one per machine cycle.
 
@@ -135,10 +136,53 @@ theorem dma_partition_invariant (s : State) (c d : Nat) (cs ds : List Nat) (h1 :
     runBatches s (c :: cs) = runBatches s (d :: ds) := by
   rw [dma_split_invariant s c cs h1, dma_split_invariant s d ds h2, hs]
 
+/-! ### the real catch-up: DMA interleaved with the devices
+
+`runDma` above is the copy alone.  In `MemoryAreas::run_clock_cycles` the timer, the LCD and the joypad catch up after
+every copied byte (since /repo 451a8b9), so that a source inside the I/O page (DIV, LY, STAT, IF …) is read at its own
+machine cycle.  For that whole composition (`Sys.dev`, tied to the code by the c09 / c04 / c10 streams) the result is
+independent of the batching as well — OAM, the other memory, the timer, the LCD position and frame count, IF: -/
+
+open GbVerif.SysProofs in
+/-- the invariants the theorem needs hold at power-on … -/
+theorem sys_ok_create (k : Cart.Kind) (rb mb : Nat) (rom : Nat → Nat) :
+    IoOk (create k rb mb rom).io ∧ SysProofs.DmaOk (create k rb mb rom) :=
+  ⟨⟨by show (0 : Nat) < 65536; decide, by show (0 : Nat) < 65536; decide⟩, fun _ _ h => by cases h⟩
+
+open GbVerif.SysProofs in
+/-- … and are kept by every bus write and every catch-up: they hold in every reachable state -/
+theorem sys_ok_write {s s' : State} {a v : Nat} (wf : WF s) (ha : a < 65536) (ok : IoOk s.io) (hd : SysProofs.DmaOk s)
+    (h : write s a v = .ok s') : IoOk s'.io ∧ SysProofs.DmaOk s' := write_keeps wf ha ok hd h
+
+open GbVerif.SysProofs in
+theorem sys_ok_time {s s' : State} (wf : WF s) (ok : IoOk s.io) (hd : SysProofs.DmaOk s) {k : Nat} (hk : k % 4 = 0)
+    (hb : k < 2 ^ 32 - 65536) (h : Sys.dev s k = .ok s') : WF s' ∧ IoOk s'.io ∧ SysProofs.DmaOk s' :=
+  dev_keeps wf ok hd hk hb h
+
+open GbVerif.SysProofs in
+/-- **whole-machine batch independence**: `a + b` clocks in one catch-up = `a` clocks, then `b` clocks, for every DMA
+source page (the I/O page included), every progress, with or without a transfer running -/
+theorem dev_batch_add {s : State} (wf : WF s) (ok : IoOk s.io) (hd : SysProofs.DmaOk s) (a b : Nat)
+    (ha : a % 4 = 0) (hb : b % 4 = 0) (ha4 : 4 ≤ a) (hab : a + b < 2 ^ 32 - 65536) :
+    Sys.dev s (a + b) = (Sys.dev s a).bind fun s1 => Sys.dev s1 b := dev_add wf ok hd a b ha hb ha4 hab
+
+open GbVerif.SysProofs in
+/-- … hence any partition of a stretch of time into batches of whole machine cycles -/
+theorem dev_partition_invariant {s : State} (wf : WF s) (ok : IoOk s.io) (hd : SysProofs.DmaOk s) (ks : List Nat) (hne : ks ≠ [])
+    (hks : ∀ k ∈ ks, k % 4 = 0 ∧ 4 ≤ k) (hsum : ks.sum < 2 ^ 32 - 65536) :
+    devBatches ks s = Sys.dev s ks.sum := dev_partition ks wf ok hd hne hks hsum
+
 /-! ### non-vacuity -/
 
 /-- a concrete cartridge: MBC1, 4 ROM banks holding `i % 251`, 8 KiB RAM -/
 def exState : State := create .mbc1 4 0x2000 (fun i => i % 251)
+
+/-- the I/O page as source: 160 machine cycles in one batch, split 1 + 159 and split 80 + 80 copy the same bytes
+(P1, SB, SC, the unmapped 0xFF03, then DIV as it stands in the fifth machine cycle …) -/
+example : (write exState 0xff46 0xff >>= fun s => Sys.dev s 640 >>= fun s => pure (s.oam.toList.take 8)).toOption =
+    some [63, 255, 255, 255, 0, 0, 0, 0] := by decide +kernel
+example : (write exState 0xff46 0xff >>= fun s => Sys.dev s 4 >>= fun s => Sys.dev s 636 >>= fun s => pure (s.oam.toList.take 8)).toOption =
+    some [63, 255, 255, 255, 0, 0, 0, 0] := by decide +kernel
 
 example : WF exState ∧ DmaOk exState := ⟨wf_create _ _ _ _ (by decide), dmaok_create _ _ _ _⟩
 /-- DMA from ROM page 0x41 (bank 1): after 8 clocks two bytes are in OAM, the third is not, the transfer is active -/
